@@ -62,3 +62,4 @@ package ch
 //@   ensures ctx.cancelled && !gotException.val ==> c.closed && err != nil {cancelled-closes-and-fails}
 //@   ensures err != nil ==> c.closed {error-means-closed}
 //@   ensures !ctx.cancelled ==> err == nil {no-cancel-no-error}
+//@   ensures gotException.val ==> c.closed == old(c.closed) && err == nil {exception-is-not-cancelled}
